@@ -63,7 +63,7 @@ func runC10(ctx *Ctx) {
 	for _, m := range msgs {
 		lens = append(lens, len(m))
 	}
-	r.Rule = fmt.Sprintf("the AMF side (independent refnas/refcrypto) protects every downlink history of length <=%d (<=%d for pairs using SNOW 3G) over %d operations (plain message of %v octets x header type {0 plain,1,2,3 new context,4 new context} x COUNT step {+1,+2,+200,+255 (skipped sequence numbers, wraps)}) x 6 algorithm pairs x starting DL COUNT %v; plus one- and three-message histories with payload containers of 245..4000 octets (messages around the 256- and 1024-octet marks), linear runs of 800 messages (3 SQN wraps), through NASDecode and through GetNasPdu on a DownlinkNASTransport; "+
+	r.Rule = fmt.Sprintf("the AMF side (independent refnas/refcrypto) protects every downlink history of length <=%d (<=%d for pairs using SNOW 3G) over %d operations (plain message of %v octets x header type {0 plain,1,2,3 new context,4 new context} x COUNT step {+1,+2,+200,+255 (skipped sequence numbers, wraps)}) x 6 algorithm pairs x starting DL COUNT %v; plus one- and three-message histories with payload containers of 245..4000 octets (messages around the 256- and 1024-octet marks), linear runs of 800 messages (3 SQN wraps), populations of 1100 UEs (40 for SNOW 3G pairs) with their own keys receiving two messages each, through NASDecode and through GetNasPdu on a DownlinkNASTransport (the NAS-PDU alone, after the two UE identifiers, and followed by Index-to-RFSP and Allowed-NSSAI); "+
 		"oracle: returned message re-encodes to exactly the plain bytes the AMF protected, UE DL COUNT == the AMF's COUNT for that message (overflow +1 on wrap, 0 after a new-context header); non-trivial = history length >= 2", depthAES, depthSnow, len(ops), lens, starts)
 	r.Assume("downlink plain messages are hand-encoded from TS 24.501 clause 8 tables", "the UE and the AMF start from the same COUNT (as after a security mode procedure)")
 	if !ctx.IsChild() {
@@ -115,7 +115,59 @@ func runC10(ctx *Ctx) {
 			c10history(r, l, msgs, ops, alg, kint, kenc, 0, seq, false)
 		}
 	}
+	// many UEs, each with its own keys: every one receives a message, then each a second one (state kept per key must not be lost or mixed)
+	for _, alg := range algs {
+		n := 1100
+		if alg[0] == 1 || alg[1] == 1 {
+			n = 40 // the library's SNOW 3G is slow; the AES pairs carry the population
+		}
+		item++
+		if ctx.Mine(item) {
+			c10population(r, l, msgs, alg, n)
+		}
+	}
 	l.Merge()
+}
+
+func c10population(r *report.Report, l *report.Local, msgs [][]byte, alg [2]uint8, n int) {
+	ues := make([]*tglib.RanUeContext, n)
+	scs := make([]refnas.SecCtx, n)
+	for i := range ues {
+		var ki, ke [16]byte
+		for j := range ki {
+			ki[j] = byte(i>>uint(8*(j%3))) ^ byte(j*29) ^ 0x11
+			ke[j] = byte(i>>uint(8*(j%3))) ^ byte(j*31) ^ 0x80
+		}
+		ues[i] = tglib.NewRanUeContext(fmt.Sprintf("imsi-00101%010d", i+1), int64(i+1), alg[1], alg[0])
+		ues[i].KnasInt, ues[i].KnasEnc = ki, ke
+		ues[i].DLCount.Set(0, 0)
+		scs[i] = refnas.SecCtx{NIA: int(alg[0]), NEA: int(alg[1]), KInt: ki, KEnc: ke}
+	}
+	for round := 0; round < 2; round++ {
+		for i := range ues {
+			plain := msgs[(i+round)%3]
+			count := uint32(round)
+			wire := refnas.Protect(plain, 2, scs[i], count, refnas.DirDownlink)
+			cs := fmt.Sprintf("NIA%d/NEA%d: %d UEs with their own keys, message %d of UE %d", alg[0], alg[1], n, round+1, i)
+			var m *nas.Message
+			var err error
+			perr := recoverErr(func() { m, err = tglib.NASDecode(ues[i], nas.GetSecurityHeaderType(wire), append([]byte{}, wire...)) })
+			if perr != nil || err != nil {
+				r.Violate(fmt.Sprintf("population/unprotect/error/nea=%d", alg[1]), cs, fmt.Sprint(perr, err), nil)
+				return
+			}
+			var re []byte
+			if perr := recoverErr(func() { re, err = m.PlainNasEncode() }); perr != nil || err != nil || !bytes.Equal(re, plain) {
+				r.Violate(fmt.Sprintf("population/plain-not-recovered/nea=%d", alg[1]), cs, fmt.Sprintf("recovered %x, AMF protected %x (%v %v)", re, plain, perr, err), nil)
+				return
+			}
+			if ues[i].DLCount.Get() != count {
+				r.Violate("population/DL-count", cs, fmt.Sprintf("UE DL COUNT %#x, AMF used %#x", ues[i].DLCount.Get(), count), nil)
+				return
+			}
+		}
+	}
+	l.Case(fmt.Sprintf("population NIA%d/NEA%d %d", alg[0], alg[1], n), true, "ok")
 }
 
 func c10history(r *report.Report, l *report.Local, msgs [][]byte, ops []c10op, alg [2]uint8, kint, kenc [16]byte, start uint32, seq []int, viaGetNasPdu bool) {
@@ -163,7 +215,30 @@ func c10history(r *report.Report, l *report.Local, msgs [][]byte, ops []c10op, a
 				ie.Id.Value = ngapType.ProtocolIEIDNASPDU
 				ie.Value.Present = ngapType.DownlinkNASTransportIEsPresentNASPDU
 				ie.Value.NASPDU = &ngapType.NASPDU{Value: append([]byte{}, wire...)}
+				// the other IEs of TS 38.413 9.2.5.2 around the NAS-PDU: the identifiers before it, optional ones after it
+				if step%3 >= 1 {
+					a := ngapType.DownlinkNASTransportIEs{}
+					a.Id.Value = ngapType.ProtocolIEIDAMFUENGAPID
+					a.Value.Present = ngapType.DownlinkNASTransportIEsPresentAMFUENGAPID
+					a.Value.AMFUENGAPID = &ngapType.AMFUENGAPID{Value: 1}
+					b := ngapType.DownlinkNASTransportIEs{}
+					b.Id.Value = ngapType.ProtocolIEIDRANUENGAPID
+					b.Value.Present = ngapType.DownlinkNASTransportIEsPresentRANUENGAPID
+					b.Value.RANUENGAPID = &ngapType.RANUENGAPID{Value: 1}
+					dl.ProtocolIEs.List = append(dl.ProtocolIEs.List, a, b)
+				}
 				dl.ProtocolIEs.List = append(dl.ProtocolIEs.List, ie)
+				if step%3 == 2 || (len(seq) == 1 && viaGetNasPdu) {
+					c := ngapType.DownlinkNASTransportIEs{}
+					c.Id.Value = ngapType.ProtocolIEIDIndexToRFSP
+					c.Value.Present = ngapType.DownlinkNASTransportIEsPresentIndexToRFSP
+					c.Value.IndexToRFSP = &ngapType.IndexToRFSP{Value: 1}
+					d := ngapType.DownlinkNASTransportIEs{}
+					d.Id.Value = ngapType.ProtocolIEIDAllowedNSSAI
+					d.Value.Present = ngapType.DownlinkNASTransportIEsPresentAllowedNSSAI
+					d.Value.AllowedNSSAI = &ngapType.AllowedNSSAI{List: []ngapType.AllowedNSSAIItem{{SNSSAI: ngapType.SNSSAI{SST: ngapType.SST{Value: []byte{1}}}}}}
+					dl.ProtocolIEs.List = append(dl.ProtocolIEs.List, c, d)
+				}
 				m = tglib.GetNasPdu(ue, &dl)
 				if m == nil {
 					err = fmt.Errorf("GetNasPdu returned nil")
